@@ -937,7 +937,7 @@ def driver_setup(seed, uhf, nw):
     from mc import alphabets as al
 
     n, nelec, nchol = 3, (1, 1), 2
-    h0, h1, chol = al.small_ham(n, nchol, seed, scale=0.3)
+    h0, h1, chol = al.small_ham(n, nchol, seed, scale=1.0)
     ham = hamiltonian.hamiltonian(n)
     ham_data = {"h0": h0, "h1": jnp.array([h1[0], h1[0]]), "chol": jnp.array(chol.reshape(nchol, -1)), "ene0": 0.0}
     ham_data["mask"] = jnp.ones(ham_data["h1"].shape)
@@ -954,7 +954,7 @@ def driver_setup(seed, uhf, nw):
         return out
 
     cls = type("spy_" + base.__name__, (base,), {"stochastic_reconfiguration_global": spy})
-    prop = cls(0.01, nw)
+    prop = cls(0.05, nw)
     if uhf:
         trial = wavefunctions.uhf(n, nelec)
         wave_data["mo_coeff"] = [jnp.array(v[:, :1]), jnp.array(v[:, :1])]
